@@ -54,6 +54,29 @@ MUTANTS = [
     ("C20", "position-ignored", P + "rdgridspace.py", "        position_index = self.get_cell_index(position)\n        return self.cell_env[position_index]", "        return self.cell_env[int(position)]", "C20.POS"),
     ("C20", "mandatory-label-optional", P + "rdnetwork.py", "    else : raise ValueError(\"missing species label.\")", "    else : da[\"label\"] = None", "C20.MAND"),
     ("C20", "policy-accepts-floor", P + "rdscript.py", "[\"auto\", \"none\", \"Poisson\", \"redist\"]:", "[\"auto\", \"none\", \"Poisson\", \"redist\", \"floor \"]:", "C20.ENUM"),
+    # ---- C01
+    ("C01", "volume-exponent-q-minus-1", E + "SimulationAlgorithm3DBase.hpp", "pow(mesh_vol,1-q);", "pow(mesh_vol,q-1);", "C01.DIM"),
+    ("C01", "kd-without-edge-square", E + "SimulationAlgorithm3DBase.hpp", "mesh_kd[i*n_species*6 + s*6+ n] = Dij/(mesh_edge*mesh_edge);", "mesh_kd[i*n_species*6 + s*6+ n] = Dij/(mesh_edge);", "C01.DIM"),
+    ("C01", "surface-distance-swapped", E + "SimulationAlgorithmGraphBase.hpp", "mesh_kd_out[i][s*mesh_neighbor_n[i]+n] = Dij * mesh_neighbor_sfc[i][n] / (mesh_vol[i] * mesh_neighbor_dst[i][n]);", "mesh_kd_out[i][s*mesh_neighbor_n[i]+n] = Dij * mesh_neighbor_dst[i][n] / (mesh_vol[i] * mesh_neighbor_sfc[i][n]);", "C01.DIM"),
+    ("C01", "arithmetic-mean-in-engine", E + "SimulationAlgorithmGraphBase.hpp", "                      Dij = (hi+hj)/(hi/Di + hj/Dj);", "                      Dij = (hi*Di+hj*Dj)/(hi + hj);", "C01.SIB"),
+    ("C01", "kinetics-grid-factor", P + "kinetics.py", "            k = 2/(h**2 * (1/Di + 1/Dj))", "            k = 1/(h**2 * (1/Di + 1/Dj))", "C01.SIB"),
+    ("C01", "zero-guard-dropped", E + "SimulationAlgorithm3DBase.hpp", "                    if(Di!=0 && Dj!=0)", "                    if(Di!=0)", "C01.SIB"),
+    ("C01", "k-table-transposed-reader", E + "SimulationAlgorithmGraphBase.hpp", "k[mesh_env[i]*n_reactions+r]*pow(mesh_vol[i],1-q);", "k[r*n_env+mesh_env[i]]*pow(mesh_vol[i],1-q);", "C01.LAYOUT"),
+    ("C01", "D-builder-transposed", P + "librdengine.py", "            D[s*n_env+e] = valproc.get_value_in_env(", "            D[e*n_species+s] = valproc.get_value_in_env(", "C01.LAYOUT"),
+    ("C01", "euler-in-place", E + "Euler3D.hpp", "                  mesh_dxdt[i*n_species+s] -= DiffusionRateDifference(i, s, n);", "                  { mesh_dxdt[i*n_species+s] -= DiffusionRateDifference(i, s, n); mesh_x[i*n_species+s] += 0; }", "C01.PHASE"),
+    ("C01", "dxdtf-volume-exponent", P + "rdsystem.py", "            k_r *= vol**(1-r.order())", "            k_r *= vol**(r.order()-1)", "C01.PY"),
+    ("C01", "env-by-index", P + "rdsystem.py", "            environment = network.environments[cell_env[i]], \n            default = UnitValue(0, \"molecule/µm3\"))", "            environment = cell_env[i], \n            default = UnitValue(0, \"molecule/µm3\"))", "C01.ENV"),
+    ("C01", "reaction-rate-wrong-sub", E + "SimulationAlgorithm3DBase.hpp", "            r *= pow(mesh_x[mesh_index*n_species+s], sub[s*n_reactions+reaction_index]);", "            r *= pow(mesh_x[mesh_index*n_species+s], sto[s*n_reactions+reaction_index]);", "C01.PHASE"),
+    # ---- C04
+    ("C04", "k-not-converted", P + "librdengine.py", "UnitValue(0, Units(units_system, r.kf_units_dimensions()))).convert(units_system).value)", "UnitValue(0, Units(units_system, r.kf_units_dimensions()))).value)", "C04.BOUNDARY"),
+    ("C04", "time-step-in-script-units", P + "librdengine.py", "            #time_step\n                ctypes.c_double(script.time_step.convert(units_system).value),\n                \n            #seed\n                ctypes.c_int(script.rng_seed),\n\n            #init_state_processing\n                ctypes.c_char_p(script.init_state_processing.encode()),\n                                \n", "            #time_step\n                ctypes.c_double(script.time_step.value),\n                \n            #seed\n                ctypes.c_int(script.rng_seed),\n\n            #init_state_processing\n                ctypes.c_char_p(script.init_state_processing.encode()),\n                                \n", "C04.BOUNDARY"),
+    ("C04", "output-in-script-units", P + "librdengine.py", "                             sys=self._units_system ,\n                             dim=quantity_units_dimensions()),", "                             sys=self._script.units_system ,\n                             dim=quantity_units_dimensions()),", "C04.BOUNDARY"),
+    ("C04", "child-inherits-parent", P + "rdnetwork.py", "da[\"species\"] = [species_from_dict(s, da[\"units_system\"]) for s in d[\"species\"]]", "da[\"species\"] = [species_from_dict(s, parent_units_system) for s in d[\"species\"]]", "C04.INHERIT"),
+    ("C04", "setter-default-system", P + "rdgridspace.py", "            v, \n            self.units_system, \n            volume_units_dimensions(),", "            v, \n            UnitsSystem(), \n            volume_units_dimensions(),", "C04.OWNER"),
+    ("C04", "dimensioned-constant", E + "Euler3D.hpp", "                mesh_x[i*n_species+j] += mesh_dxdt[i*n_species+j]*dt;", "                mesh_x[i*n_species+j] += mesh_dxdt[i*n_species+j]*dt + dt;", "C04.HOMOG"),
+    ("C04", "state-not-converted", P + "rdsystem.py", "            state = np.concatenate((state, state_dict[s.label].convert(units_system).value))", "            state = np.concatenate((state, state_dict[s.label].value))", "C04.STATE"),
+    ("C04", "override-after-use", P + "librdengine.py", "        if self._requires_molecules : \n            units_system.quantity = \"molecule\"\n            \n        self._units_system = units_system", "        self._units_system = units_system.copy()\n        if self._requires_molecules : \n            units_system.quantity = \"molecule\"", "C04.BOUNDARY"),
+    ("C04", "inherit-means-default", P + "value_processing.py", "        elif v==\"inherit\" :\n            return parent_units_system", "        elif v==\"inherit\" :\n            return UnitsSystem()", "C04.INHERIT"),
     # ---- C02
     ("C02", "one-sided-move", E + "TauLeap3D.hpp", "                    if(! mesh_chstt[j*n_species+s])\n                        {\n                        mesh_x[j*n_species+s] += mesh_nd[i*6*n_species+s*6+n];\n                        }", "", "C02.PAIR"),
     ("C02", "unequal-amounts", E + "TauLeapGraph.hpp", "                        mesh_x[j*n_species+s] += mesh_nd[i][s*mesh_neighbor_n[i]+n];", "                        mesh_x[j*n_species+s] += mesh_nd[i][s*mesh_neighbor_n[i]];", "C02.PAIR"),
